@@ -513,6 +513,8 @@ def _desugar(body, spec, ctr, dropped, used):
             recv = body[i:fe['dot']]
             pat = body[fe['bar1'] + 1:fe['bar2']]
             cb = _trim(body[fe['bar2'] + 1:fe['close']])
+            if hasattr(ctr, 'lits'):
+                ctr.lits[k] = [x.text for x in cb if x.kind == 'str']
             dropped.append(('T12', 'for_each', [body[fe['dot']], body[fe['name']], body[fe['open']], body[fe['bar1']],
                                                 body[fe['bar2']], body[fe['close']], body[fe['semi']]]))
             it = '__it%d' % k
@@ -618,6 +620,8 @@ def _desugar(body, spec, ctr, dropped, used):
                 expr = body[j + 1:e]
                 close = match_close(body, e)
                 inner = body[e + 1:close]
+                if hasattr(ctr, 'lits'):
+                    ctr.lits[k] = [x.text for x in inner if x.kind == 'str']
                 dropped.append(('T3', 'for', [t]))
                 dropped.append(('T3', 'in', [body[j]]))
                 dropped.append(('T3swap', 'pattern/iterator-expression order', [],
@@ -676,6 +680,8 @@ def _desugar(body, spec, ctr, dropped, used):
             if e >= n:
                 raise Unsupported('%s without block (line %s)' % (t.text, t.line))
             close = match_close(body, e)
+            if hasattr(ctr, 'lits'):
+                ctr.lits[k] = [x.text for x in body[e + 1:close] if x.kind == 'str']
             if pre is not None:
                 out += splice_toks(pre)
             out.append(t)
@@ -975,7 +981,9 @@ def _collect_for_patterns(body):
     a dry run of it) -> identifiers of the loop pattern, in order. `$for<K>#i` in overlay text stands for the i-th."""
     ctr = LoopCounter()
     ctr.pats = {}
+    ctr.lits = {}
     _desugar(list(body), None, ctr, [], set())
+    _collect_for_patterns.lits = ctr.lits
     return ctr.pats
 
 
@@ -1045,7 +1053,16 @@ def _subst_placeholders(text, lets, fname):
         if k not in pats or i >= len(pats[k]):
             raise Unsupported('%s: placeholder %s: no such loop variable' % (fname, m.group(0)))
         return pats[k][i]
-    return re.sub(r'\$for<(\d+)>#(\d+)', repf, text)
+    text = re.sub(r'\$for<(\d+)>#(\d+)', repf, text)
+
+    def replit(m):
+        # $looplit<K>#i : the i-th string literal inside the body of loop K (nested loops' literals included)
+        k, i = int(m.group(1)), int(m.group(2))
+        ls = getattr(lets, 'looplits', {}).get(k)
+        if ls is None or i >= len(ls):
+            raise Unsupported('%s: placeholder %s: no such string literal' % (fname, m.group(0)))
+        return ls[i]
+    return re.sub(r'\$looplit<(\d+)>#(\d+)', replit, text)
 
 
 def _param_names(item):
@@ -1187,10 +1204,11 @@ def _resolve_spec(spec, body, fname):
     if spec is None:
         return None
     alltext = ''.join(spec.sections.values()) + ''.join(a[1] + a[2] for a in spec.anchors)
-    if '$let' not in alltext and '$for<' not in alltext and '$recv<' not in alltext and '$strlit<' not in alltext and '$strlitnot<' not in alltext:
+    if '$let' not in alltext and '$for<' not in alltext and '$recv<' not in alltext and '$strlit<' not in alltext and '$strlitnot<' not in alltext and '$looplit<' not in alltext:
         return spec
     lets = LetList(_collect_lets(body))
     lets.forpats = _collect_for_patterns(body)
+    lets.looplits = dict(_collect_for_patterns.lits)
     lets.bodytexts = [t.text for t in body if t.sig()]
     c = FnSpec(spec.file, spec.impl_re, spec.name)
     c.tags, c.ctags, c.ret, c.lineno = spec.tags, spec.ctags, spec.ret, spec.lineno
